@@ -315,6 +315,29 @@ func c11Run(sc c11Scenario, tmp string) (res c11Result) {
 			}
 		case op == "RMMETA":
 			os.RemoveAll(filepath.Join(s.Dir, ".db-litestream"))
+		case strings.HasPrefix(op, "V3GEN"):
+			// a legacy 0.3.x replica (one generation, two WAL indexes) generated from a real history, into the replica directory;
+			// V3GEN:snaponly keeps only the snapshots (restore then applies no WAL segment)
+			h := c19Hist{Mode: "upd", PageSize: 512, Gens: [][]int{{1, 1}}}
+			d, err := c19Generate(h, filepath.Join(tmp, "v3src-"+sc.Name))
+			if err != nil {
+				res.Harness = err
+				return
+			}
+			b, err := c19BuildLayout(c19Layout{Hist: h, Splits: [][]int{{0, 0}}, Snaps: []int{1}}, d, nil)
+			if err != nil {
+				res.Harness = err
+				return
+			}
+			for i := range b.Files {
+				if strings.HasSuffix(op, "snaponly") && strings.Contains(b.Files[i].Rel, "/wal/") {
+					continue
+				}
+				if err := c19WriteFile(s.ReplicaDir, &b.Files[i]); err != nil {
+					res.Harness = err
+					return
+				}
+			}
 		case strings.HasPrefix(op, "RESTORE") || strings.HasPrefix(op, "FOLLOW") || strings.HasPrefix(op, "FWAIT") || op == "FSTOP":
 			r, derr := p.Do(op)
 			if derr != nil {
@@ -357,7 +380,12 @@ func c11Run(sc c11Scenario, tmp string) (res c11Result) {
 					if kv[0] == "FSTOP" {
 						m.inFollow = false
 					}
-					m.boundary(kv[0], kv[1])
+					// FOLLOW/FWAIT answers are not acknowledgements of the follower: the follow loop runs in the
+					// background and FWAIT merely observes its sidecar, possibly between a rename and the directory
+					// fsync that follows it. The follower's publishes are judged when it is stopped (FSTOP).
+					if !strings.HasPrefix(kv[0], "FOLLOW") && !strings.HasPrefix(kv[0], "FWAIT") && !(m.inFollow && kv[0] != "FSTOP") {
+						m.boundary(kv[0], kv[1])
+					}
 					opi++
 				}
 				continue
@@ -394,6 +422,8 @@ func c11Scenarios() []c11Scenario {
 		c11Scenario{"behind-replica-idle", base, f("W3 SW W1 SW STOPW RMMETA RESTARTW S RS CL")},
 		c11Scenario{"restart-clean", base, f("W3 SW W1 S STOPW W1 RESTARTW SW CMP:1 RETL0:2 CL")},
 		c11Scenario{"follower", base, f("W3 SW FOLLOW:follower FWAIT:1 W1 SW FWAIT:2 W1 SW CMP:1 RETL0:2 W1 SW FWAIT:4 FSTOP CL")},
+		c11Scenario{"legacy-restore-snapshot-only", base, f("V3GEN:snaponly RESTORE:restored")},
+		c11Scenario{"legacy-restore-with-wal", base, f("V3GEN:full RESTORE:restored")},
 		c11Scenario{"retention-off", cfgWith(func(c *scn.Config) { c.RetentionEnabled = false }), f("W3 SW W1 SW CMP:1 RETL0:2 SNAP W1 SW SNAP RET9:1 CL")},
 		c11Scenario{"nostore", cfgWith(func(c *scn.Config) { c.UseStore = false }), f("W3 SW W1 SW CMP:1 SNAP RET9:0 LC:TRUNCATE W1 SW CL")},
 	)
@@ -411,7 +441,7 @@ func c11(args []string) int {
 	scs := c11Scenarios()
 	if ev.Tier() != "thorough" {
 		// quick: the scenarios that between them contain every publish/delete site
-		keep := map[string]bool{"sync+ckpt": true, "compact+retain": true, "restore+close": true, "behind-replica-fetch": true, "follower": true, "behind-replica-idle": true}
+		keep := map[string]bool{"sync+ckpt": true, "compact+retain": true, "restore+close": true, "behind-replica-fetch": true, "follower": true, "behind-replica-idle": true, "legacy-restore-snapshot-only": true, "legacy-restore-with-wal": true}
 		var q []c11Scenario
 		for _, s := range scs {
 			if keep[s.Name] {
